@@ -20,14 +20,18 @@ for d in sorted(glob.glob("/verif/seeded/C??-*")):
         "what_it_needs_to_manifest": (open(d + "/demo.md").read()[:2000] if os.path.exists(d + "/demo.md") else ""),
         "demonstration": [f for f in ("demo.md", "demo_test.rs") if os.path.exists(os.path.join(d, f))],
         "repository_tests_with_patch": (open(d + "/tests.txt").read().strip() if os.path.exists(d + "/tests.txt")
-                                        else ([l.split(":", 1)[1].strip() for l in open(d + "/verify.txt") if l.startswith("suite with patch")] or ["not run"])[0]
+                                        else ([l.split(":", 1)[1].strip() for l in open(d + "/verify.txt") if l.startswith("suite with patch")]
+                                              or [("115 repository tests pass (" + l.strip() + ")") for l in open(d + "/verify.txt") if l.startswith("repository tests failing with patch: none")]
+                                              or ["not run"])[0]
                                         if os.path.exists(d + "/verify.txt") else "not run"),
-        "demonstration_confirmed": ([l.strip() for l in open(d + "/verify.txt") if l.startswith("demo ") or l.startswith("head:")]
+        "demonstration_confirmed": ([l.strip() for l in open(d + "/verify.txt") if l.startswith("demo ") or l.startswith("head:") or l.startswith("suite+demo") or l.startswith("failed with patch")]
                                     if os.path.exists(d + "/verify.txt") else []),
         "rebased": sorted(os.path.basename(f) for f in glob.glob(d + "/patch.orig-*.diff")),
         "checks_run": results,
-        "how_confirmed": "bin/seedverify2.sh <seed> (scratch worktree /tmp/seedverify of /repo's HEAD: git apply; cargo test --offline; demo test appended to the test module it names: fails with the patch, passes after git apply -R); removed afterwards",
-        "how_run": "bin/seedtest.sh %s/patch.diff <property>  (git -C /repo apply; bin/check <property> --tier quick; git -C /repo checkout -- .); '.rerun' = after the check was strengthened" % d,
+        "how_confirmed": ("bin/seedverify3.sh <seed> (scratch worktree of /repo's HEAD outside /repo and /verif: git apply; demonstration appended to the test module it names; cargo test --offline on the whole suite: the 115 repository tests pass and the demonstration fails; git apply -R: the demonstration passes); worktree removed afterwards"
+                          if sid[-1] in "78" else "bin/seedverify2.sh <seed> (scratch worktree /tmp/seedverify of /repo's HEAD: git apply; cargo test --offline; demo test appended to the test module it names: fails with the patch, passes after git apply -R); removed afterwards"),
+        "how_run": (("bin/lane.sh <n> %s:<properties>  (a copy of /verif with its harness compiling a scratch worktree of /repo's HEAD to which the patch is applied -- the same bin/check, several seeds in parallel, /repo untouched; C01-7 and C01-8 with bin/seedtest.sh on /repo itself); '.rerun' = after the check was strengthened" % sid)
+                    if sid[-1] in "78" else "bin/seedtest.sh %s/patch.diff <property>  (git -C /repo apply; bin/check <property> --tier quick; git -C /repo checkout -- .); '.rerun' = after the check was strengthened" % d),
     }
     json.dump(meta, open(d + "/meta.json", "w"), indent=1)
 print("ok")
